@@ -30,3 +30,22 @@ def run_suite(rep, pid, suite, tier, what_failed='obligation'):
                 rep.error('%s: no normal exit reached (vacuous contract?)' % fn)
     if n == 0: rep.error('zero proof obligations generated for %s' % pid)
     return failed
+
+
+def report_failed(rep, failed):
+    """a failed obligation of a helper contract is a violation (no failing input unless the bounded tier found one in the same run)"""
+    hit = set(v['key'] for v in rep.violations)
+    for fn, o in failed:
+        rep.violation(o['name'], 'obligation %s is no longer discharged (%s)%s' % (o['name'], (o.get('detail') or '')[:200],
+                      '; the bounded tier reports a failing input for this property in the same run' if hit else ''),
+                      replay={'kind': 'obligation', 'obligation': o['name'], 'function': fn, 'solver_output': o.get('detail')}, nfi=not hit)
+
+
+def replay_obligation(path):
+    import json
+    d = json.load(open(path)); r = d.get('replay') or {}
+    if r.get('kind') == 'obligation':
+        print('replay file names obligation %s; solver output: %s' % (r.get('obligation'), str(r.get('solver_output'))[:300]))
+        print('re-run the check to re-generate and re-discharge it from the current tree')
+        return True
+    return False
